@@ -51,6 +51,20 @@ inductive Err where
   | conflict (name : Name)          -- "conflicting function names name(…) and name(…)"
   deriving Repr, DecidableEq
 
+/-- `token.IsKeyword(n) || types.Universe.Lookup(n) != nil`: the 25 keywords and the 44 names of the
+universe scope of the Go toolchain goderive is built with (go1.24). The check re-extracts both lists from
+go/token and go/types on every run (T4) and compares them with this table. -/
+def reservedWordStrings : List String := [
+  "break", "case", "chan", "const", "continue", "default", "defer", "else", "fallthrough", "for", "func", "go",
+  "goto", "if", "import", "interface", "map", "package", "range", "return", "select", "struct", "switch", "type",
+  "var",
+  "any", "append", "bool", "byte", "cap", "clear", "close", "comparable", "complex", "complex128", "complex64",
+  "copy", "delete", "error", "false", "float32", "float64", "imag", "int", "int16", "int32", "int64", "int8",
+  "iota", "len", "make", "max", "min", "new", "nil", "panic", "print", "println", "real", "recover", "rune",
+  "string", "true", "uint", "uint16", "uint32", "uint64", "uint8", "uintptr"]
+
+def reservedWords : List Name := reservedWordStrings.map asc
+
 section
 variable {τ : Type} [DecidableEq τ] (R : TyRel τ)
 
@@ -79,9 +93,9 @@ def Table.lookup (t : Table τ) (n : Name) : Option (List τ) := t.entries.looku
 def Table.insert (t : Table τ) (n : Name) (typs : List τ) : Table τ :=
   { t with entries := t.entries ++ [(n, typs)] }
 
-/-- `exists || isreserved` of `newName` -/
+/-- `typesMap.taken` (60219e3): registered, reserved, a Go keyword or a name of the universe scope -/
 def taken (c : Cfg) (t : Table τ) (n : Name) : Bool :=
-  t.names.contains n || c.reserved.contains n
+  t.names.contains n || c.reserved.contains n || reservedWords.contains n
 
 /-- the `name` computed at the top of `newName` -/
 def hintOf : List τ → List Letter
@@ -89,7 +103,7 @@ def hintOf : List τ → List Letter
   | t :: _ => R.hint t
 
 def newName (c : Cfg) (t : Table τ) (typs : List τ) : Name :=
-  newNameWith (taken c t) (t.entries.length + c.reserved.length) c.pfx (hintOf R typs)
+  newNameWith (taken c t) (t.entries.length + c.reserved.length + reservedWords.length) c.pfx (hintOf R typs)
 
 /-- `GetFuncName`. In the `nameOf`-fails case Go calls `SetFuncName(newName, typs)` and ignores its
 result; that call always takes the insertion branch (`Lemmas/TypesMap.setFuncName_newName`), which is
